@@ -703,8 +703,14 @@ class Explorer:
                         self.on_exit(user, ctx, ev.get('e'), ev)
                 env = self._apply_event(ev, env)
                 if ev['ev'] in ('assign', 'decl', 'return', 'incdec') and any(k[0] == 'lc' for k in env):
-                    # operand outcomes are only meaningful up to the statement that consumes the expression
-                    env = {k: v for k, v in env.items() if k[0] != 'lc'}
+                    # operand outcomes are only meaningful up to the statement that consumes the expression ...
+                    t2 = blk.get('term')
+                    rhs2 = ev['e'].get('r') if ev['ev'] == 'assign' else ev.get('init') if ev['ev'] == 'decl' else None
+                    if ev is blk['events'][-1] and t2 and isinstance(t2.get('cond'), dict) and isinstance(rhs2, dict) \
+                            and _is_logical(rhs2) and estr(t2['cond']) == estr(rhs2):
+                        pass        # ... which the branch right after it tests again (`b = x && y; if (b)`)
+                    else:
+                        env = {k: v for k, v in env.items() if k[0] != 'lc'}
             succs = blk['succs']
             term = blk.get('term')
             if bid == fn.exit:
@@ -723,10 +729,15 @@ class Explorer:
             if len(succs) == 2 and term is not None and term.get('cond') is not None:
                 atom, sense = norm_cond(term['cond'])
                 shortcut = kind == 'BinaryOperator'
+                decided = None
                 if not shortcut and any(k[0] == 'lc' for k in env):
+                    if _is_logical(term['cond']):
+                        decided = _eval_logical(term['cond'], env)
                     env = {k: v for k, v in env.items() if k[0] != 'lc'}     # the condition has been consumed
                 for idx, s in enumerate(succs):
                     if s < 0:
+                        continue
+                    if decided is not None and (idx == 0) != bool(decided):
                         continue
                     edge_sense = sense if idx == 0 else (not sense)
                     env2 = self._refine(atom, edge_sense, env)
